@@ -129,11 +129,11 @@ static void c11_dispatch(vbi_event_handler fp, vbi_event *ev, void *ud)
 
 static void read_op(struct op *o, unsigned kinds)
 {
-  o->kind = in_u8(); o->f = in_u8(); o->u = in_u8(); o->mask = in_int();
+  /* total decoding: every byte string is a valid input (native smoke / replay never hits an assumption here) */
+  o->kind = (uint8_t) (in_u8() % kinds); o->f = (uint8_t) (in_u8() % NF); o->u = (uint8_t) (in_u8() % NU); o->mask = in_int();
 #ifdef MASK_AND
   o->mask &= MASK_AND;
 #endif
-  V_ASSUME(o->kind < kinds && o->f < NF && o->u < NU);
 }
 
 /* ---- shadow list ------------------------------------------------------ */
@@ -191,17 +191,14 @@ static struct event_handler *nd[N0];
 static void build_list(void)
 {
   unsigned i, j, n; uint8_t f[N0], u[N0]; int mask[N0], m = 0;
-  n = in_u8(); V_ASSUME(n <= N0);
-#ifdef N_FIX
-  n = N_FIX;          /* grid: list length concrete */
-#endif
+  n = in_u8() % (N0 + 1);
   for (i = 0; i < N0; i++) {
-    f[i] = in_u8(); u[i] = in_u8(); mask[i] = in_int();
+    f[i] = (uint8_t) (in_u8() % NF); u[i] = (uint8_t) (in_u8() % NU); mask[i] = in_int();
 #ifdef MASK_AND
     mask[i] &= MASK_AND;
 #endif
-    V_ASSUME(f[i] < NF && u[i] < NU && mask[i] != 0);
-    for (j = 0; j < i; j++) V_ASSUME(f[i] != f[j] || u[i] != u[j]);
+    V_ASSUME(i >= n || mask[i] != 0);                                        /* I: no record with an empty mask */
+    for (j = 0; j < i; j++) V_ASSUME(i >= n || f[i] != f[j] || u[i] != u[j]);  /* I: (function, user pointer) pairs differ */
   }
   for (i = 0; i < N0; i++) {
     nd[i] = (struct event_handler *) calloc(1, sizeof *nd[i]);
@@ -306,22 +303,13 @@ static void read_events(int *type)
 {
   unsigned i, e;
   for (e = 0; e < NEV; e++) {
-    uint32_t t = in_u32();
-    V_ASSUME(t != 0 && (t & (t - 1)) == 0);      /* event types are single bits */
 #ifdef TYPE_N                                     /* grid: the bit is one of TYPE_LO .. TYPE_LO+TYPE_N-1 */
-    V_ASSUME((t >> TYPE_LO) != 0 && (t >> TYPE_LO) < (1u << TYPE_N));
+    uint32_t t = 1u << (TYPE_LO + in_u8() % TYPE_N);
+#else
+    uint32_t t = 1u << (in_u8() & 31);            /* event types are single bits: any of the 32 */
 #endif
     type[e] = (int) t;
     for (i = 0; i < CBK; i++) read_op(&act[e][i], CB_KINDS);
-#ifdef K0       /* grid: API function used by the 1st / 2nd / 3rd call made from callbacks (or none) */
-    V_ASSUME(act[e][0].kind == OP_NONE || act[e][0].kind == K0);
-#endif
-#if defined(K1) && CBK > 1
-    V_ASSUME(act[e][1].kind == OP_NONE || act[e][1].kind == K1);
-#endif
-#if defined(K2) && CBK > 2
-    V_ASSUME(act[e][2].kind == OP_NONE || act[e][2].kind == K2);
-#endif
   }
 }
 
@@ -356,7 +344,7 @@ V_HARNESS(h_api_step_cb)
   read_op(&o, OP_KINDS);
   c = in_u8();
   n0 = sh_n;
-  V_ASSUME(c <= n0);
+  if (c > n0) c = n0;
   for (i = 0; i < N0; i++) if (i == c && i < n0) V.next_handler = nd[i];
   pthread_mutex_lock(&V.event_mutex); in_delivery = 1;
   do_op(&o, 1, 0);
